@@ -202,7 +202,8 @@ class AngularCoordinates(CustomNumpyArray):
         other_xyz = other.to_3d()
         coord_diff_sq = (self_xyz - other_xyz) ** 2
         dists = np.sqrt(coord_diff_sq.sum(axis=1))
-        return AngularDistances.from_3d(dists)
+        # rounding errors may result in values > 2.0 for antipodal points
+        return AngularDistances.from_3d(np.minimum(dists, 2.0))
 
 
 @total_ordering
